@@ -37,8 +37,7 @@ theorem fs_refines_history {s : FS} (h : Inv s) :
     (∀ start stop back, FileStore.iterator s start stop back = History.iterator (abs s) start stop) ∧
     (∀ first last, FileStore.undoLog s first last = History.undoLog (abs s) first last) ∧
     (∀ p first last, FileStore.undoLogF s p first last = History.undoLogF (abs s) p first last) ∧
-    (∀ n, FileStore.lastInvalidations s n = History.lastInvalidations (abs s) n) ∧
-    (∀ next, FileStore.recordIterNext s next = History.recordIterNext (abs s) next) :=
+    (∀ n, FileStore.lastInvalidations s n = History.lastInvalidations (abs s) n) :=
   ⟨Proofs.FileStoreRefine.load_refines h,
    Proofs.FileStoreRefine.loadSerial_refines h,
    Proofs.FileStoreRefine.loadBefore_refines h,
@@ -48,8 +47,25 @@ theorem fs_refines_history {s : FS} (h : Inv s) :
    Proofs.FileStoreRefine2.iterator_refines h,
    Proofs.FileStoreRefine2.undoLog_refines h,
    Proofs.FileStoreRefine2.undoLogF_refines h,
-   Proofs.FileStoreRefine2.lastInvalidations_refines h,
-   Proofs.FileStoreRefine2.recordIterNext_refines h⟩
+   Proofs.FileStoreRefine2.lastInvalidations_refines h⟩
+
+/-  FULL STATEMENT (does NOT hold for the code as it is, finding
+    `C04:fs:record_iternext-stops-at-uncreated`):
+        ∀ next, FileStore.recordIterNext s next = History.recordIterNext (abs s) next
+    `record_iternext` takes the smallest INDEXED oid; the index keeps the oid of an object whose newest
+    record is a deletion / an undone creation, and the call raises POSKeyError there instead of
+    skipping it ("iterate over the CURRENT records").  Proved: the statement when every known object
+    currently exists; the model (= the code) always equals `codeRecordIterNext`; and a witness that the
+    full statement fails. -/
+theorem record_iternext_partial {s : FS} (h : Inv s)
+    (hall : ∀ o ∈ History.oids (abs s), ∃ r, History.load (abs s) o = .ok r) (next : Nat) :
+    FileStore.recordIterNext s next = History.recordIterNext (abs s) next :=
+  Proofs.FileStoreRefine2.recordIterNext_refines_partial h hall next
+
+/-- what `record_iternext` computes in every reachable state: the code-shaped walk over the history -/
+theorem record_iternext_as_coded {s : FS} (h : Inv s) (next : Nat) :
+    FileStore.recordIterNext s next = Proofs.FileStoreRefine2.codeRecordIterNext (abs s) next :=
+  Proofs.FileStoreRefine2.recordIterNext_code h next
 
 /-- the crux (DESIGN A.1) on its own: following `prev` from the index entry visits exactly the
     newest record of the oid in every transaction that has one, newest first -/
@@ -166,8 +182,9 @@ theorem reopen_answers_same {s : FS} (h : Inv s) :
          fun x y z => (b.2.2.2.2.2.2.1 x y z).trans (a.2.2.2.2.2.2.1 x y z).symm,
          fun x y => (b.2.2.2.2.2.2.2.1 x y).trans (a.2.2.2.2.2.2.2.1 x y).symm,
          fun p x y => (b.2.2.2.2.2.2.2.2.1 p x y).trans (a.2.2.2.2.2.2.2.2.1 p x y).symm,
-         fun n => (b.2.2.2.2.2.2.2.2.2.1 n).trans (a.2.2.2.2.2.2.2.2.2.1 n).symm,
-         fun n => (b.2.2.2.2.2.2.2.2.2.2 n).trans (a.2.2.2.2.2.2.2.2.2.2 n).symm⟩
+         fun n => (b.2.2.2.2.2.2.2.2.2 n).trans (a.2.2.2.2.2.2.2.2.2 n).symm,
+         fun n => by
+           rw [record_iternext_as_coded h', record_iternext_as_coded h, e]⟩
 
 /-! ### tie to constants translated from the source on every run (`ZodbModel/Generated.lean`) -/
 
@@ -220,6 +237,18 @@ example : (FileStore.undoLog exS 0 2).map (·.tid) = [4, 3] := by decide
 -- a filter selects first, the window counts the selected transactions
 example : (FileStore.undoLogF exS (fun e => e.user == [65] || e.desc == [66]) 0 1).map (·.tid) = [2] ∧
     (FileStore.undoLogF exS (fun e => e.user == [65] || e.desc == [66]) 1 5).map (·.tid) = [1] := by decide
+
+/-- witness for `C04:fs:record_iternext-stops-at-uncreated`: in `exS` oid 1 exists and oid 2 is deleted.
+    The history says: oid 1 is the only current record (no next); the code names the deleted oid 2
+    as next and raises KeyError there. -/
+theorem record_iternext_stops_at_uncreated :
+    Inv exS ∧
+    History.recordIterNext (abs exS) 0 = .ok (1, 3, [7], none) ∧
+    FileStore.recordIterNext exS 0 = .ok (1, 3, [7], some 2) ∧
+    History.recordIterNext (abs exS) 2 = .error .valueError ∧
+    FileStore.recordIterNext exS 2 = .error .keyError :=
+  ⟨reachable_inv exOps (by simp [exOps, Proofs.FileStoreTop.RunOk, OpOk, statusOk, init]),
+   by decide, by decide, by decide, by decide⟩
 
 /-- a transaction that is voted but not finished lies complete in the file, checkpoint flag set:
     the iterator (which reads the file) must not report it -/
